@@ -132,6 +132,7 @@ func (up *UsagePool) LoadOrStore(key, val any) (value any, loaded bool) {
 			// LoadOrNew and its constructor failed, which means
 			// LoadOrNew has removed it from the pool again (and
 			// our reference with it); so start over
+			verifYield(up, 7, nil)
 			return up.LoadOrStore(key, val)
 		}
 	} else {
